@@ -45,6 +45,12 @@ pub enum Terminal {
     Collect,
     /// keep calling next() twice after exhaustion
     Drain,
+    /// the provided adaptors that an implementation may override: fold from the front
+    Fold,
+    /// rfold from the back
+    Rfold,
+    /// skip(2).step_by(3), then rev() on what is left of a second pass: position/any/all
+    Adaptors,
 }
 
 #[derive(Clone, Debug, Hash, Serialize, Deserialize)]
@@ -120,6 +126,43 @@ where
                 return Err(format!("collecting the remaining {} items gives {:?}, slice iterator {:?}", rem, g, e));
             }
         }
+        Terminal::Fold => {
+            let g = it.fold(Vec::new(), |mut v, b| {
+                v.push(b);
+                v
+            });
+            let e = or.fold(Vec::new(), |mut v, b| {
+                v.push(b);
+                v
+            });
+            if g != e {
+                return Err(format!("fold over the remaining {} items visits {:?}, slice iterator {:?}", rem, g, e));
+            }
+        }
+        Terminal::Rfold => {
+            let g = it.rfold(Vec::new(), |mut v, b| {
+                v.push(b);
+                v
+            });
+            let e = or.rfold(Vec::new(), |mut v, b| {
+                v.push(b);
+                v
+            });
+            if g != e {
+                return Err(format!("rfold over the remaining {} items visits {:?}, slice iterator {:?}", rem, g, e));
+            }
+        }
+        Terminal::Adaptors => {
+            let (g1, e1) = (it.by_ref().take(5).position(|b| b == Bit::One), or.by_ref().take(5).position(|b| b == Bit::One));
+            if g1 != e1 {
+                return Err(format!("position over take(5) with {} items remaining gives {:?}, slice iterator {:?}", rem, g1, e1));
+            }
+            let g: Vec<Bit> = it.skip(2).step_by(3).collect();
+            let e: Vec<Bit> = or.skip(2).step_by(3).collect();
+            if g != e {
+                return Err(format!("skip(2).step_by(3) over the rest gives {:?}, slice iterator {:?}", g, e));
+            }
+        }
         Terminal::Drain => {
             loop {
                 let (g, e) = (it.next(), or.next());
@@ -181,7 +224,7 @@ fn arb_call() -> impl Strategy<Value = Call> {
     ]
 }
 
-const TERMS: [Terminal; 4] = [Terminal::Count, Terminal::Last, Terminal::Collect, Terminal::Drain];
+const TERMS: [Terminal; 7] = [Terminal::Count, Terminal::Last, Terminal::Collect, Terminal::Drain, Terminal::Fold, Terminal::Rfold, Terminal::Adaptors];
 
 impl Property for C17 {
     type Case = C17Case;
@@ -189,14 +232,14 @@ impl Property for C17 {
         "C17"
     }
     fn rule(&self) -> String {
-        "Cases (stateful): a vector (any zoo type/provenance, length <=200 quick / 600 thorough), an iterator source (iter() | (&v).into_iter(), optionally .rev()), a sequence of 0..25 calls over next, next_back, nth(k), nth_back(k), size_hint with k in {0..5, rem-1, rem, rem+1, usize::MAX, usize::MAX-1, usize::MAX-rem, a fraction of rem, arbitrary} (rem = items remaining at call time), then a terminal count | last | collect | drain-and-keep-calling. Oracle: std::slice::Iter over the model bits driven by the same calls, every return value compared; the vector passes the battery afterwards (iteration does not modify it). Long vectors (enumerated, not random): 65..8193 bits on four types, every length 321..2600 (thorough 8300), the 70 400-bit fixed type at 7 lengths and a geometric ladder of lengths around every power of two from 2^14 to 2^21 (thorough 2^24) bits, with jumps to interior positions, 2^16+1 and 2^12+5. Enumerated: all call sequences of length <=4 over a 7-call alphabet for every n<=5, all four sources, on 3 types. Non-trivial: items were consumed from both ends and at least one nth/nth_back with k>0 ran on a partially consumed iterator. Distinct by hash of the case.".into()
+        "Cases (stateful): a vector (any zoo type/provenance, length <=200 quick / 600 thorough), an iterator source (iter() | (&v).into_iter(), optionally .rev()), a sequence of 0..25 calls over next, next_back, nth(k), nth_back(k), size_hint with k in {0..5, rem-1, rem, rem+1, usize::MAX, usize::MAX-1, usize::MAX-rem, a fraction of rem, arbitrary} (rem = items remaining at call time), then a terminal count | last | collect | drain-and-keep-calling | fold | rfold | adaptors (position over take(5), then skip(2).step_by(3)). Oracle: std::slice::Iter over the model bits driven by the same calls, every return value compared; the vector passes the battery afterwards (iteration does not modify it). Long vectors (enumerated, not random): 65..8193 bits on four types, every length 321..2600 (thorough 8300), the 70 400-bit fixed type at 7 lengths and a geometric ladder of lengths around every power of two from 2^14 to 2^21 (thorough 2^24) bits, with jumps to interior positions, 2^16+1 and 2^12+5. Enumerated: all call sequences of length <=4 over a 7-call alphabet for every n<=5, all four sources, on 3 types. Non-trivial: items were consumed from both ends and at least one nth/nth_back with k>0 ran on a partially consumed iterator. Distinct by hash of the case.".into()
     }
     fn random_cases(&self, tier: Tier) -> u64 {
         tier.pick(300000, 9600000)
     }
     fn strategy(&self, tier: Tier) -> BoxedStrategy<C17Case> {
         let nmax = tier.pick(200, 600);
-        (arb_operand(tier), any::<u16>(), any::<bool>(), any::<bool>(), vec(arb_call(), 0..25), 0usize..4).prop_map(move |(mut a, f, into_iter, rev, calls, t)| {
+        (arb_operand(tier), any::<u16>(), any::<bool>(), any::<bool>(), vec(arb_call(), 0..25), 0usize..7).prop_map(move |(mut a, f, into_iter, rev, calls, t)| {
             if a.len() > nmax {
                 a.bits.0.truncate(frac(f, nmax + 1));
             }
@@ -204,7 +247,7 @@ impl Property for C17 {
         }).boxed()
     }
     fn exhaustive_subspaces(&self, _tier: Tier) -> Vec<String> {
-        vec!["all call sequences of length <=4 over {next, next_back, nth(0), nth(1), nth_back(1), nth(usize::MAX), nth_back(usize::MAX-rem)} x every n<=5 x 4 iterator sources x 4 terminals on Bvf<u8,1>, Bvd, Bv".into()]
+        vec!["all call sequences of length <=4 over {next, next_back, nth(0), nth(1), nth_back(1), nth(usize::MAX), nth_back(usize::MAX-rem)} x every n<=5 x 4 iterator sources x 7 terminals on Bvf<u8,1>, Bvd, Bv".into()]
     }
     fn enumerate(&self, tier: Tier, sh: &mut Shard, f: &mut dyn FnMut(C17Case) -> bool) {
         // long vectors: jumps to arbitrary interior positions followed by single steps
@@ -226,7 +269,7 @@ impl Property for C17 {
                     for f2 in [1000u16, 30000, 65000] {
                         for src in 0..4usize {
                             let calls = vec![Call::Nth(KSel::Frac(f1)), Call::Next, Call::Next, Call::NthBack(KSel::Frac(f2)), Call::NextBack, Call::Next, Call::Nth(KSel::Small(63)), Call::Next, Call::Nth(KSel::Small(64)), Call::Next, Call::SizeHint];
-                            let case = C17Case { a: Operand::canon(t, a.clone()), into_iter: src & 1 == 1, rev: src & 2 == 2, calls, term: TERMS[(f1 as usize + src) % 4] };
+                            let case = C17Case { a: Operand::canon(t, a.clone()), into_iter: src & 1 == 1, rev: src & 2 == 2, calls, term: TERMS[(f1 as usize + src) % 7] };
                             if !f(case) {
                                 return;
                             }
@@ -253,7 +296,7 @@ impl Property for C17 {
                 for (f1, f2) in [(1000u16, 65000u16), (32768, 30000), (65000, 1000)] {
                     let src = (j + f1 as usize + n) % 4;
                     let calls = vec![Call::Nth(KSel::Frac(f1)), Call::Next, Call::NthBack(KSel::Frac(f2)), Call::NextBack, Call::Next, Call::Nth(KSel::Small(64)), Call::Next, Call::SizeHint, Call::Nth(KSel::Pow2Plus(16, 1)), Call::Next, Call::NthBack(KSel::Pow2Plus(12, 5)), Call::NextBack];
-                    if !f(C17Case { a: Operand::canon(t, a.clone()), into_iter: src & 1 == 1, rev: src & 2 == 2, calls, term: TERMS[(f2 as usize + src) % 4] }) {
+                    if !f(C17Case { a: Operand::canon(t, a.clone()), into_iter: src & 1 == 1, rev: src & 2 == 2, calls, term: TERMS[(f2 as usize + src) % 7] }) {
                         return;
                     }
                 }
@@ -283,7 +326,7 @@ impl Property for C17 {
                 continue;
             }
             let calls = vec![Call::Nth(KSel::Frac(20000)), Call::Next, Call::NthBack(KSel::Frac(20000)), Call::NextBack, Call::Nth(KSel::Small(63)), Call::Next];
-            if !f(C17Case { a: Operand::canon(t, dense_value(n)), into_iter: n % 2 == 0, rev: n % 4 < 2, calls, term: TERMS[n % 4] }) {
+            if !f(C17Case { a: Operand::canon(t, dense_value(n)), into_iter: n % 2 == 0, rev: n % 4 < 2, calls, term: TERMS[n % 7] }) {
                 return;
             }
         }
@@ -299,9 +342,11 @@ impl Property for C17 {
                         let calls: Vec<Call> = (0..len).map(|_| { let x = alpha[c % 7]; c /= 7; x }).collect();
                         let a = realize_val(&ValPat::Alt(true), n, 8);
                         for src in 0..4 {
-                            let case = C17Case { a: Operand::canon(t, a.clone()), into_iter: src & 1 == 1, rev: src & 2 == 2, calls: calls.clone(), term: TERMS[(code + src) % 4] };
-                            if !f(case) {
-                                return;
+                            for term in TERMS {
+                                let case = C17Case { a: Operand::canon(t, a.clone()), into_iter: src & 1 == 1, rev: src & 2 == 2, calls: calls.clone(), term };
+                                if !f(case) {
+                                    return;
+                                }
                             }
                         }
                     }
